@@ -118,6 +118,7 @@ class Interp:
         self.obj_attrs: dict[tuple[str, str], tuple] = dict(obj_attrs or {})
         self.leaf_calls: list[tuple[str, list, str]] = []
         self.guards: list[tuple[tuple, str, int]] = []
+        self.raise_terms: dict[int, tuple] = {}
         self.scans: list[dict] = []
         self.call_log: list[str] = []
         self.attr_writes: list[tuple[str, tuple, int]] = []
@@ -263,6 +264,12 @@ class Interp:
         if isinstance(s, ast.Return):
             return (self.ev(s.value, env, fr) if s.value is not None else NONE,)
         if isinstance(s, ast.Raise):
+            # best effort: the message as a term (which values it interpolates), for rules about error texts
+            if isinstance(s.exc, ast.Call) and s.exc.args:
+                try:
+                    self.raise_terms[s.lineno] = self.ev(s.exc.args[0], env, fr)
+                except Unsupported:
+                    pass
             return (("raise", ast.unparse(s.exc) if s.exc else ""),)
         if isinstance(s, ast.Assign):
             v = self.ev(s.value, env, fr)
@@ -387,8 +394,23 @@ class Interp:
                 return TRUE if v != 0 else FALSE
         return c
 
+    def _is_mod(self, e, env, fr, dotted):
+        try:
+            v = self.ev(e, env, fr)
+        except Unsupported:
+            return False
+        return v == ("mod", dotted)
+
     def for_stmt(self, s, env, fr):
         it = s.iter
+        # `for a, b in itertools.product(X, Y): body` is the nested loop `for a in X: for b in Y: body`
+        if isinstance(it, ast.Call) and ast.unparse(it.func).split(".")[-1] == "product" and self._is_mod(it.func, env, fr, "itertools.product") and not it.keywords \
+                and isinstance(s.target, ast.Tuple) and len(s.target.elts) == len(it.args) >= 2 and not s.orelse:
+            inner = s.body
+            for tgt, src in reversed(list(zip(s.target.elts, it.args))):
+                loop = ast.For(target=tgt, iter=src, body=inner, orelse=[], lineno=s.lineno, col_offset=s.col_offset)
+                inner = [ast.copy_location(loop, s)]
+            return self.for_stmt(inner[0], env, fr)
         if isinstance(it, ast.Call) and isinstance(it.func, ast.Name) and it.func.id == "range" and not it.keywords:
             rargs = [self.ev(a, env, fr) for a in it.args]
             if len(rargs) == 1:
@@ -818,6 +840,17 @@ class Interp:
 
     def call_prim(self, dotted, args, kw, node, fr):
         name = canon(dotted)
+        sig = PRIM_SIGS.get(name)
+        if sig and kw:
+            # positional parameters passed by keyword: `lax.scan(f=..., init=..., xs=...)` is `lax.scan(..., ..., ...)`
+            args = list(args)
+            kw = dict(kw)
+            while len(args) < len(sig):
+                names = sig[len(args)]
+                hit = next((n_ for n_ in (names if isinstance(names, tuple) else (names,)) if n_ in kw), None)
+                if hit is None:
+                    break
+                args.append(kw.pop(hit))
         h = self.prims.get(name)
         if h is not None:
             return h(self, args, kw, node)
@@ -1534,6 +1567,32 @@ def _p_clip(I, args, kw, node):
     hi = args[2] if len(args) > 2 else kw.get("max", kw.get("a_max", NONE))
     return I.pointwise("clip", [args[0], lo, hi])
 
+
+# leading positional parameters of library functions, for calls that pass them by keyword
+PRIM_SIGS = {
+    "lax.scan": ["f", "init", "xs"],
+    "lax.cond": ["pred", "true_fun", "false_fun"],
+    "jax.vmap": ["fun"],
+    "jax.pmap": ["fun"],
+    "jax.jit": ["fun"],
+    "np.where": ["condition", "x", "y"],
+    "np.take": ["a", "indices"],
+    "np.clip": [("a", "arr", "x")],
+    "np.reshape": [("a", "x"), ("shape", "newshape")],
+    "np.dot": ["a", "b"],
+    "np.zeros": ["shape"],
+    "np.zeros_like": [("a", "x")],
+    "np.tile": ["A", "reps"],
+    "np.argsort": ["a"],
+    "np.abs": ["x"], "np.absolute": ["x"], "np.exp": ["x"], "np.log": ["x"],
+    "np.minimum": ["x1", "x2"], "np.maximum": ["x1", "x2"],
+    "np.subtract": ["x1", "x2"], "np.add": ["x1", "x2"], "np.multiply": ["x1", "x2"], "np.divide": ["x1", "x2"],
+    "np.not_equal": ["x1", "x2"], "np.equal": ["x1", "x2"], "np.less": ["x1", "x2"], "np.greater": ["x1", "x2"],
+    "np.hstack": ["tup"], "np.vstack": ["tup"], "np.stack": ["arrays"], "np.concatenate": [("arrays", "a")],
+    "random.split": ["key", "num"], "random.permutation": ["key", "x"],
+}
+for _r in ("max", "min", "sum", "any", "all", "argmax", "argmin", "prod", "mean", "count_nonzero", "ptp", "amax", "amin"):
+    PRIM_SIGS["np." + _r] = ["a"]
 
 PRIMS = {
     "jax.vmap": _p_vmap,
